@@ -124,11 +124,14 @@ func TestC16(t *testing.T) {
 			realClientSlowService(t, r, i)
 		}
 		realClientFailingStatus(t, r)
+		for i := 0; i < r.N(12, 120); i++ {
+			lookupWhoseCacheWriteFails(t, r, i)
+		}
 		for i := 0; i < r.N(20, 200); i++ {
 			lookupDuringPollOfStaleSecret(t, r, i)
 		}
 	}
-	r.Require("lookups_disabled_cases", "lookups_enabled_cases", "shared_flights", "failed_lookups", "hang_bounded_callers", "retry_after_foreign_cancel", "successful_lookups", "stress_lookups", "cases_with_failing_cache", "handles_followed_a_later_poll", "updaters_followed_a_later_poll", "real_client_cancel_cases", "overlapping_cache_writes", "real_client_slow_service_cases", "lookups_after_the_service_recovered", "real_client_failing_status_cases", "lookups_during_a_poll_of_a_stale_secret")
+	r.Require("lookups_whose_cache_write_failed", "lookups_disabled_cases", "lookups_enabled_cases", "shared_flights", "failed_lookups", "hang_bounded_callers", "retry_after_foreign_cancel", "successful_lookups", "stress_lookups", "cases_with_failing_cache", "handles_followed_a_later_poll", "updaters_followed_a_later_poll", "real_client_cancel_cases", "overlapping_cache_writes", "real_client_slow_service_cases", "lookups_after_the_service_recovered", "real_client_failing_status_cases", "lookups_during_a_poll_of_a_stale_secret")
 	r.Rule("seeded cases: AllowLookup on/off; 1-2 undeclared names each with a service mode (ok, slow D, fail, fail-then-ok, hang for ever, not found) and 1-6 callers (LookupSecret / NewUpdater / Fields.Apply) with start offsets and contexts (background, deadline 1 s/1 min/10 min, cancelled at a random instant). Distinct = (AllowLookup, service mode, number of callers, set of context kinds, set of caller outcomes)")
 }
 
@@ -1077,5 +1080,61 @@ func lookupDuringPollOfStaleSecret(t *testing.T, r *evid.Run, idx int) {
 	json.Unmarshal(cache.Last(), &payload)
 	if _, ok := payload["plum"]; !ok {
 		r.Violation("looked-up-secret-not-cached", idx, what+": the cache no longer holds it: "+string(cache.Last()), nil)
+	}
+}
+
+// lookupWhoseCacheWriteFails: the cache cannot be written at exactly the moment a looked-up secret is
+// installed (the disk is full for that one write). The lookup succeeds all the same - and the secret is "cached
+// like any other": once the cache can be written again, a poll or two later (polls that bring nothing new
+// included) it holds the secret, so a restart while the service is away still has it.
+func lookupWhoseCacheWriteFails(t *testing.T, r *evid.Run, idx int) {
+	r.Eval(1)
+	svc := fakesvc.New()
+	for _, n := range []string{"known", "late/one", "undeclared/one", "undeclared/two"} {
+		svc.Set(n, 3, value(n))
+	}
+	var failing atomic.Bool
+	cache := &fakesvc.MonCache{}
+	cache.WriteErr = func(int) error {
+		if failing.Load() {
+			return errors.New("injected: no space left on device")
+		}
+		return nil
+	}
+	st, err := setec.NewStore(context.Background(), setec.StoreConfig{Client: svc, Secrets: []string{"known"}, AllowLookup: true, Cache: cache, PollInterval: -1, Logf: func(string, ...any) {}})
+	if err != nil {
+		t.Fatal(err)
+	}
+	defer st.Close()
+	via := []string{"lookup", "updater", "apply"}[idx%3]
+	name := "late/one"
+	failing.Store(true)
+	var lerr error
+	switch via {
+	case "lookup":
+		_, lerr = st.LookupSecret(context.Background(), name)
+	case "updater":
+		_, lerr = setec.NewUpdater(context.Background(), st, name, func(b []byte) (string, error) { return string(b), nil })
+	case "apply":
+		name = []string{"undeclared/one", "undeclared/two"}[(idx/3)%2]
+		var out string
+		lerr = applyVia(context.Background(), st, name, &out)
+	}
+	failing.Store(false)
+	r.Count("lookups_whose_cache_write_failed", 1)
+	r.Distinct("lookup (" + via + ") whose cache write fails")
+	what := fmt.Sprintf("case %d: %s of %q while the cache could not be written", idx, via, name)
+	if lerr != nil {
+		r.Violation("lookup-fails", idx, fmt.Sprintf("%s: the lookup failed: %v", what, lerr), nil)
+		return
+	}
+	polls := 1 + (idx/6)%3
+	for k := 0; k < polls; k++ {
+		st.Refresh(context.Background()) // (the poll that retries the write may or may not report anything)
+	}
+	var payload map[string]json.RawMessage
+	json.Unmarshal(cache.Last(), &payload)
+	if _, ok := payload[name]; !ok {
+		r.Violation("looked-up-secret-not-cached", idx, fmt.Sprintf("%s: the lookup succeeded, the cache works again, %d poll(s) have completed since (nothing new at the service) - and the cache still does not hold the secret: %s", what, polls, cache.Last()), nil)
 	}
 }
